@@ -53,6 +53,10 @@ IndexSubFrom(s, p, t) ==
 ContainsSub(s, t) == \E q \in 0..(Len(s) - Len(t)) : MatchAt(s, q, t)
 ContainsByte(s, b) == \E i \in 1..Len(s) : s[i] = b
 
+\* concatenation of a sequence of byte strings
+RECURSIVE Concat(_)
+Concat(ss) == IF ss = <<>> THEN <<>> ELSE Head(ss) \o Concat(Tail(ss))
+
 \* Remove every occurrence of byte b
 RECURSIVE DropByte(_, _)
 DropByte(w, b) ==
